@@ -295,6 +295,118 @@ def rule_normaliser(ck, name, f):
     return len(uses)
 
 
+def register_x_rules(ck):
+    ck.rule('x-increment-only', 'inside a solve the solution parameter x is only incremented (identity coefficient on its old value); exceptions: clear(x) on the zero-rhs exit, '
+                                'copy(V, x) of an iterate V seeded by copy(x, V)', 8)
+    ck.rule('x-space', 'solvers with a preconditioning side (last-writer dataflow): on a right-preconditioning path x is incremented only by results of an application of P, on a '
+                       'left-preconditioning path never by the by-product T = A F of preconditioner::spmv; an unguarded increment satisfies both', 4)
+
+
+def rule_xspace(ck, name, f):
+    """x-increment-only / x-space.
+    (a) The solution parameter x enters the result as the initial guess: inside a solve it is only incremented (x += c D with the identity
+        coefficient on x), never overwritten - except clear(x) on the zero right-hand-side exit and a final copy(V, x) of an iterate V
+        that was itself initialised by copy(x, V) (IDR(s) residual smoothing).
+    (b) Solvers with a preconditioning side.  For right preconditioning (A P y = f, x = P y) every Krylov vector lives in the
+        preconditioned space; only the result of an application of P - P.apply(., D) or the by-product T = P F of
+        preconditioner::spmv(side, P, A, F, V, T) - is a solution-space vector.  For left preconditioning that by-product is T = A F, which
+        is NOT a solution-space vector.  Flow-sensitive (last writers of the vector D at `x += c D`): on a right-preconditioning path
+        every last writer of D is an application of P; on a left-preconditioning path none is the T by-product; an increment that is not
+        guarded by the side has to satisfy both."""
+    from effects import locate
+    key = 'amgcl::solver::' + name
+    al = c01.alias_roots(f)
+    x_root = ('param', 3)
+    loc = locate(f)
+    has_side = any(n['k'] == 'call' and n.get('f') == 'amgcl::preconditioner::spmv' for n in f.nodes.values())
+    bad_over, bad_space = [], []
+    nupd = 0
+    seeded = set()    # V with copy(x, V)
+    for n in f.nodes.values():
+        if n['k'] == 'call' and prim_name(n) == 'copy' and c01.root_key(f, n['a'][0], al) == x_root:
+            seeded.add(c01.root_key(f, n['a'][1], al))
+    # ---- last-writer dataflow
+    events = {}
+
+    def add(n, root, kind):
+        if n['i'] in loc and root is not None:
+            b, pos = loc[n['i']]
+            events.setdefault(b, []).append((pos, n['i'], root, kind))
+    for n in f.nodes.values():
+        if n['k'] != 'call':
+            continue
+        pr = prim_name(n)
+        if pr is not None:
+            add(n, c01.root_key(f, n['a'][PRIMS[pr][1]], al), 'prim')
+        elif n.get('m') == 'apply' and len(n.get('a', [])) == 2 and 'obj' in n:
+            add(n, c01.root_key(f, n['a'][1], al), 'P')
+        elif n.get('f') == 'amgcl::preconditioner::spmv' and len(n.get('a', [])) == 6:
+            add(n, c01.root_key(f, n['a'][4], al), 'V')
+            add(n, c01.root_key(f, n['a'][5], al), 'T')
+    for b in events:
+        events[b].sort(key=lambda t: (t[0], t[1]))
+
+    def step(evs, st):
+        st = dict(st)
+        for pos, nid, root, kind in evs:
+            st[root] = frozenset([(nid, kind)])
+        return frozenset(st.items())
+
+    def join(p, q):
+        p, q = dict(p), dict(q)
+        return frozenset((k, p.get(k, frozenset()) | q.get(k, frozenset())) for k in set(p) | set(q))
+    IN = {}
+    if has_side and f.cfg is not None:
+        IN, _ = f.cfg.forward(frozenset(), lambda b, st: step(events.get(b, ()), st), join=join)
+    for n in sorted(f.nodes.values(), key=lambda t: t['i']):
+        if n['k'] != 'call':
+            continue
+        pr = prim_name(n)
+        if pr is not None:
+            ci, oi = PRIMS[pr]
+            if c01.root_key(f, n['a'][oi], al) != x_root:
+                continue
+            nupd += 1
+            coef = classify_coef(f, n['a'][ci]) if ci is not None else 'zero'
+            if coef != 'identity':
+                if pr == 'clear':
+                    # the zero-rhs exit: clear(x) followed by a return in the same block (decided in detail by C15 D.zero-rhs-exit)
+                    blk = next((a for a in f.ancestors(n) if a['k'] == 'block'), None)
+                    if blk is not None and any(m['k'] == 'ret' for m in blk.get('s', [])):
+                        continue
+                if pr == 'copy' and c01.root_key(f, n['a'][0], al) in seeded:
+                    continue
+                bad_over.append('%s at %s overwrites x (coefficient `%s` on its old value)' % (show(n)[:50], f.where(n), show(n['a'][ci]) if ci is not None else 'none'))
+                continue
+            if pr == 'axpby' and has_side and n['i'] in loc:
+                D = c01.root_key(f, n['a'][1], al)
+                side = None
+                for t in c01.guards_of(f, n):
+                    if 'pside' in t and 'left' in t:
+                        side = 'right' if t.startswith('!') else 'left'
+                    elif 'pside' in t and 'right' in t:
+                        side = 'left' if t.startswith('!') else 'right'
+                b, pos = loc[n['i']]
+                if b not in IN:
+                    continue
+                st = dict(step([e for e in events.get(b, ()) if (e[0], e[1]) < (pos, n['i'])], IN[b]))
+                writers = st.get(D, frozenset())
+                kinds = {k for _, k in writers}
+                where = 'on the %s-preconditioning path' % side if side else 'irrespective of prm.pside'
+                if side != 'left' and (not writers or kinds - {'P', 'T'}):
+                    bad_space.append('x is incremented by `%s` at %s %s, but that vector is not (on every path) the result of an application of P: for right preconditioning the '
+                                     'Krylov vectors live in the preconditioned space and x = x0 + P y' % (show(n['a'][1]), f.where(n), where))
+                if side != 'right' and 'T' in kinds:
+                    bad_space.append('x is incremented by `%s` at %s %s, but that vector is the by-product T of preconditioner::spmv, which is A F - not a solution-space vector - '
+                                     'for left preconditioning' % (show(n['a'][1]), f.where(n), where))
+        elif n.get('m') == 'apply' and len(n.get('a', [])) == 2 and 'obj' in n and c01.root_key(f, n['a'][1], al) == x_root:
+            nupd += 1
+            bad_over.append('%s at %s overwrites x with a preconditioner application: the initial guess is lost' % (show(n)[:50], f.where(n)))
+    ck.ob('x-increment-only', key, f.where(), not bad_over and nupd > 0, '; '.join(bad_over[:2]) if bad_over else ('' if nupd else 'no update of x found'))
+    if has_side:
+        ck.ob('x-space', key, f.where(), not bad_space, '; '.join(bad_space[:2]))
+
+
 def rule_rotation(ck, units):
     """rotation-unitary: the plane rotation [conj(cs) conj(sn); -sn cs] generated for (dx, dy) is unitary iff |cs|^2 + |sn|^2 = 1.  With
     t = dy/dx (or dx/dy) and cs = 1/sqrt(1 + q), sn = t cs this needs q = |t|^2; for a complex scalar the plain square t*t is a different
@@ -340,6 +452,7 @@ def main(tier):
     ck.rule('A2.work-counted', 'every CFG cycle through an application of the system matrix A contains a modification of the returned iteration counter: maxiter = k stops after the '
                                'k-th step (bicgstabl: the j < L loop is counted in bulk by `iter += L`)', 8)
     ck.rule('normaliser-fresh', 'gmres, fgmres, lgmres: in axpby(inverse(s), V, 0, W) the scalar s is on every path norm(V) taken after the last write to V (unit basis vectors)', 6)
+    register_x_rules(ck)
     ck.rule('B5.lock-step', 'cg, bicgstab, idrs: every x += c D is paired with a residual update -c V where V is the image of D under the (side-dependent) preconditioned operator', 3)
     ck.rule('B6.smoothing-siblings', 'idrs: the residual-smoothing block after the inner update and the one after the omega step are the same code', 1)
     seen = set()
@@ -356,6 +469,7 @@ def main(tier):
             else:
                 c01.rule_counted(ck, name, f, kd)
             rule_normaliser(ck, name, f)
+            rule_xspace(ck, name, f)
             rule_conj(ck, u, name, inline.expand(f, inline.same_class_helper(keep=('norm', 'operator()'))))
         an = Analyzer([u])
         c15.rule_B(ck, an, {uname: u}, only=lambda f: f.cls.startswith('amgcl::solver::') and f.cls.split('::')[-1] in c01.SOLVERS, floor=8)
